@@ -275,17 +275,18 @@ func (ns *c13nodeState) handler(idx int) fakenode.Handler {
 		if strings.HasPrefix(kind, "slow-ok") {
 			// a successful answer that takes a while (speculative executions overlap it)
 			time.AfterFunc(8*time.Millisecond, func() {
-				sc.ReplyVoid(req)
 				ns.mu.Lock()
 				a.doneT = time.Now()
 				ns.mu.Unlock()
+				sc.ReplyVoid(req)
 			})
 			return
 		}
-		c13outcome(sc, req, kind)
+		// stamped before the answer leaves: whatever the driver does in reaction to it comes later
 		ns.mu.Lock()
 		a.doneT = time.Now()
 		ns.mu.Unlock()
+		c13outcome(sc, req, kind)
 	}
 }
 
@@ -415,7 +416,11 @@ func c13case(c *runner.Ctx, i int) {
 			time.Sleep(30 * time.Millisecond)
 		}
 		ns.mu.Lock()
-		arr := append([]*c13arrival{}, ns.arrivals[token]...)
+		var arr []*c13arrival
+		for _, a := range ns.arrivals[token] {
+			cp := *a // value copy: the node's goroutines may still stamp doneT
+			arr = append(arr, &cp)
+		}
 		cseq := ns.cancelSeq[token]
 		ns.mu.Unlock()
 		key := fmt.Sprintf("v%d nodes=%d script=%v policy=%s spec=%d idem=%v batch=%v cancelAt=%d", version, nn, script, polName, spec, idem, batch, cancelAt)
